@@ -57,8 +57,9 @@ Definition ma_hdr (a : mp4_atom) := match a with MAtom _ _ _ h _ => h end.      
 Definition ma_kids (a : mp4_atom) := match a with MAtom _ _ _ _ k => k end.     (* Atom.children *)
 Definition ma_end (a : mp4_atom) := ma_off a + ma_len a.
 
-(* f.seek(p); f.read(n) for 0 <= n *)
-Definition mp4_rd (f : list Z) (p n : Z) : list Z := zslice p (p + n) f.
+(* f.seek(p); f.read(n) for 0 <= n (clamped first, so that absurd positions / lengths taken from a damaged file cost nothing) *)
+Definition mp4_rd (f : list Z) (p n : Z) : list Z :=
+  if zlen f <=? p then [] else zslice p (p + Z.min n (zlen f - p)) f.
 
 (* ------------------------------------------------------------------ MIRROR of Atom.__init__ / Atoms.__init__ *)
 (* length and header size from the 8 header bytes h read at pos (AtomError -> mutagen.mp4.error = EMutagen) *)
@@ -241,8 +242,7 @@ Definition mp4_moved (offset delta aoff : Z) : Z := if aoff >? offset then aoff 
 (* read_full(fileobj, n): ValueError for n < 0, IOError (-> mutagen.mp4.error) on a short read *)
 Definition mp4_read_full (g : list Z) (p n : Z) : result (list Z) :=
   if n <? 0 then Raise EValue else
-  let d := mp4_rd g p n in
-  if zlen d <? n then Raise EMutagen else Ok d.
+  if zlen g - p <? n then Raise EMutagen else Ok (mp4_rd g p n).
 
 Definition mp4_update_table (w : nat) (delta offset : Z) (g : list Z) (a : mp4_atom) : result (list Z) :=
   let ao := mp4_moved offset delta (ma_off a) in
